@@ -50,7 +50,8 @@ RULES = {
     "path_sweep": "enumerated: every dictionary path plus near-misses of each convertor type (several dots, lone dot, 20-digit years, short months, non-ASCII digits, "
     "4300/4301 digits), an empty file, a symbolic-link loop and a dangling link inside the served directory, through every bundled application and every "
     "request accessor; directory URLs without the final slash (the Pages redirect) x every dictionary query string and Host value; every dictionary path "
-    "below every mount of the composed application; WSGI environs without the keys PEP 3333 makes optional (QUERY_STRING absent, SCRIPT_NAME / PATH_INFO / "
+    "below every mount of the composed application; directories and files with non-ASCII Latin-1 names (with / without index.html, nested) under every byte "
+    "spelling of the name (Latin-1 = invalid UTF-8 = the WSGI fallback reading, UTF-8, mixtures) x final slash x query x mounts x Host; WSGI environs without the keys PEP 3333 makes optional (QUERY_STRING absent, SCRIPT_NAME / PATH_INFO / "
     "CONTENT_* absent when empty, no client address)",
 }
 ASSUMPTIONS = [
@@ -70,10 +71,37 @@ def _reset():
 core.AFTER_FORK.append(_reset)
 
 
+# Directories and files whose names are non-ASCII but Latin-1 representable.  A WSGI path whose bytes are NOT valid UTF-8 is read as
+# Latin-1 by the routing / static-file code (decode_path_info's fallback), so the bytes b"/caf\xe9" name the existing directory "café":
+# the only way an invalid-UTF-8 path gets past the 404 and into the redirect / file-response code.  With and without index.html, nested,
+# next to files of the same kind of name (and "ü" both as directory and as "ü.html").
+LATIN1_TREE = {
+    "café/index.html": b"<cafe>", "café/ñ": None, "café/ñ/f.txt": b"n", "café/ö/index.html": b"<o>", "café/é.html": b"e", "café.txt": b"c",
+    "ü": None, "ü/ü.txt": b"u", "ü.html": b"<u>", "ý/index.html": b"<y>", "naïve dir/index.html": b"<naive>", "plain ä": None, "plain ä/x.txt": b"x",
+    "dir/ß": None, "dir/ß.html": b"<ss>",
+}
+LATIN1_NAMES = ["café", "café/ñ", "café/ö", "café/é.html", "café/é", "café/ñ/f.txt", "café.txt", "ü", "ü/ü.txt", "ü.html", "ý", "naïve dir", "plain ä", "plain ä/x.txt", "dir/ß", "café/index.html", "café/zz", "cafe"]
+
+
+def latin1_spellings(name: str):
+    """Byte spellings of one name: all Latin-1 (invalid UTF-8 -> the fallback reading), all UTF-8, and - for names with two or more
+    non-ASCII characters - the mixtures (some characters Latin-1, the others UTF-8: invalid UTF-8 as a whole, so the fallback reads
+    the UTF-8 pairs as two Latin-1 characters each)."""
+    idx = [i for i, ch in enumerate(name) if ord(ch) > 127]
+    out = []
+    for mask in range(1 << len(idx)) if len(idx) <= 3 else (0, (1 << len(idx)) - 1):
+        b = b"".join(ch.encode("utf-8" if (i in idx and mask >> idx.index(i) & 1) else "latin-1") for i, ch in enumerate(name))
+        if b not in out:
+            out.append(b)
+    return out
+
+
 def static_dir():
     global _DIR
     if _DIR is None:
-        _DIR = recipes.materialise({"index.html": b"<html>", "file.txt": b"hello world", "dir/index.html": b"<dir>", "dir/a.html": b"a", "é.txt": b"e", "empty.txt": b""})
+        tree = {"index.html": b"<html>", "file.txt": b"hello world", "dir/index.html": b"<dir>", "dir/a.html": b"a", "é.txt": b"e", "empty.txt": b""}
+        tree.update(LATIN1_TREE)
+        _DIR = recipes.materialise(tree)
         # entries a deployed directory may contain and a client may name: a symbolic-link loop (stat -> ELOOP) and a dangling link
         for name, target in (("loop", "loop"), ("dangling", "nowhere"), ("dir/up", "../dir/up")):
             link = os.path.join(_DIR, *name.split("/"))
@@ -445,6 +473,8 @@ def oracle_cuts(case) -> Result:
 def oracle_both(case) -> Result:
     """The bundled applications and the request accessors for the same request (path sweep)."""
     r = oracle_apps(case)
+    if case.get("apps_only"):
+        return r
     r2 = oracle_request(case)
     r.failures.extend(r2.failures)
     r.labels.extend(lab for lab in r2.labels if lab.startswith("outcome="))
@@ -752,7 +782,8 @@ def request_case(draw, for_apps=False):
     path = draw(_paths)
     if for_apps and draw(st.booleans()):
         # reach the file / route handlers: an existing target plus hostile validators
-        path = draw(st.sampled_from([b"/file.txt", b"/index.html", b"/dir/", b"/dir/a", b"/\xc3\xa9.txt", b"/", b"/i/42", b"/t/2021-03-07", b"/s/x", b"/a/b/c", b"/dir", b"", b"/empty.txt", b"/d/1.5", b"/static/file.txt", b"/p/dir", b"/p/dir/", b"/r/i/42", b"/\xc3\xa9/x/file.txt", b"/static/\xe4\xb8\xad"]))
+        path = draw(st.sampled_from([b"/file.txt", b"/index.html", b"/dir/", b"/dir/a", b"/\xc3\xa9.txt", b"/", b"/i/42", b"/t/2021-03-07", b"/s/x", b"/a/b/c", b"/dir", b"", b"/empty.txt", b"/d/1.5", b"/static/file.txt", b"/p/dir", b"/p/dir/", b"/r/i/42", b"/\xc3\xa9/x/file.txt", b"/static/\xe4\xb8\xad",
+                                     b"/caf\xe9", b"/caf\xc3\xa9", b"/caf\xe9/", b"/caf\xe9/\xf1", b"/\xfc", b"/p/caf\xe9", b"/static/caf\xe9/\xf1/f.txt", b"/na\xefve dir", b"/caf\xe9.txt"]))
         for name in draw(st.lists(st.sampled_from(["If-Modified-Since", "If-None-Match", "Range", "If-Range", "Host", "If-Match", "If-Unmodified-Since"]), min_size=1, max_size=3, unique=True)):
             v = draw(st.sampled_from(pool(name) + (DATES if name == "If-Range" else [])))
             if draw(st.integers(0, 4)) == 0:
@@ -995,6 +1026,27 @@ def path_sweep_cases():
             for host in (None, "[::1]:80"):
                 rq = gw.areq(method="GET", headers=[["Host", host]] if host else [], body=[b""], query=q, path_bytes=path, path="/")
                 yield {"request": rq, "hostile": True, "labels": ["nested redirect x query x Host"], "apps": ["nested"]}
+    # non-ASCII directories and files reached through every byte spelling of their names (Latin-1 = invalid UTF-8 = the WSGI fallback
+    # reading; UTF-8; mixtures), with and without the final slash, with a query, unmounted (Files / Pages / the others) and below the mounts
+    first = True
+    for name in LATIN1_NAMES:
+        for spelled in latin1_spellings(name):
+            for slash in (b"", b"/"):
+                for q in (b"", b"a=\xff&b=%ff", b"x=1"):
+                    for prefix, apps in ((b"", None if first else ["files", "pages", "subpaths"]), (b"/static", ["nested"]), (b"/p", ["nested"]), (b"/\xc3\xa9/x", ["nested"]), (b"/\xe9/x", ["nested"])):
+                        if prefix and q == b"x=1":
+                            continue  # (cost) below the mounts: no query and the hostile query
+                        rq = gw.areq(method="GET", headers=[], body=[b""], query=q, path_bytes=prefix + b"/" + spelled + slash, path="/")
+                        case = {"request": rq, "hostile": True, "labels": ["latin-1 names"], "apps_only": not (first and not prefix)}
+                        if apps:
+                            case["apps"] = apps
+                        yield case
+            first = False
+    for path in (b"/caf\xe9", b"/\xfc", b"/caf\xe9/\xf1", b"/na\xefve dir", b"/p/caf\xe9", b"/\xe9/x/caf\xe9"):
+        for host in pool("Host")[::4] + ["caf\xe9.example"]:
+            for method in ("GET", "HEAD"):
+                rq = gw.areq(method=method, headers=[["Host", _clean(host)], ["Referer", "http://x/caf\xe9"]], body=[b""], query=b"q=\xe9", path_bytes=path, path="/", root_path="")
+                yield {"request": rq, "hostile": True, "labels": ["latin-1 names x Host"], "apps": ["pages", "files", "nested"], "apps_only": True}
     # environ keys a server may leave out (PEP 3333: QUERY_STRING "may be empty or absent"; SCRIPT_NAME / PATH_INFO when empty; no client address)
     omits = (["QUERY_STRING"], ["QUERY_STRING", "SCRIPT_NAME"], ["QUERY_STRING", "SCRIPT_NAME", "PATH_INFO"], ["SCRIPT_NAME", "PATH_INFO"], ["REMOTE_ADDR", "REMOTE_PORT"],
              ["QUERY_STRING", "SCRIPT_NAME", "PATH_INFO", "CONTENT_TYPE", "CONTENT_LENGTH", "REMOTE_ADDR", "REMOTE_PORT"])
@@ -1023,9 +1075,9 @@ def run(rec, only=None):
     core.drive_cases(rec, "pairs", pairs_cases(), oracle_apps)
     core.drive_cases(rec, "path_sweep", path_sweep_cases(), oracle_both)
     rec.exhaustive["cuts"] = rec.exhaustive["pairs"] = rec.exhaustive["path_sweep"] = True
-    core.drive_hypothesis(rec, "request", request_case(), oracle_request, 3000 if quick else 60000, max_buckets=mb)
-    core.drive_hypothesis(rec, "apps", request_case(True), oracle_apps, 1500 if quick else 30000, seed_offset=1, max_buckets=mb)
-    core.drive_hypothesis(rec, "parsers", parser_case(), oracle_parsers, 3000 if quick else 60000, seed_offset=2, max_buckets=mb)
+    core.drive_hypothesis(rec, "request", request_case(), oracle_request, 2000 if quick else 60000, max_buckets=mb)
+    core.drive_hypothesis(rec, "apps", request_case(True), oracle_apps, 1000 if quick else 30000, seed_offset=1, max_buckets=mb)
+    core.drive_hypothesis(rec, "parsers", parser_case(), oracle_parsers, 2000 if quick else 60000, seed_offset=2, max_buckets=mb)
     for k in SUBS:
         rec.exhaustive[k] = False
     if not quick:
